@@ -43,7 +43,7 @@ REQUIRED = {
 
 
 def run(ctx):
-    for fn in (r1_shortcut, r2_flag_table, r3_symmetry, r4_regex_facts, r6_verdict_sources, r7_regex_call_shape, r8_wildcard_bounds, r9_quote_removal, r10_comparison_does_not_write_state):
+    for fn in (r1_shortcut, r2_flag_table, r3_symmetry, r4_regex_facts, r6_verdict_sources, r7_regex_call_shape, r8_wildcard_bounds, r9_quote_removal, r10_comparison_does_not_write_state, r11_run_state_is_forwarded):
         ctx.rep.rule(fn, ctx)
 
 
@@ -783,12 +783,58 @@ def r4_regex_facts(ctx):
                'ANSI pattern no longer starts with the CSI introducer: ordinary text could be deleted / colour codes kept', anchor=fs.qualname)
 
 
+def r11_run_state_is_forwarded(ctx, rule='C05.R11'):
+    """CONFIG-FLOW: the comparison flags live in the run state.  Every function of checker.py that takes a `runstate` falls back to a fresh
+    default state when it is not given one -- so a call site that has the current state at hand and does not hand it on compares under the
+    DEFAULT flags (ELLIPSIS on, NORMALIZE_WHITESPACE on, ...) whatever the doctest enabled or disabled."""
+    rep = ctx.rep
+    takers = {}
+    for fn in ctx.prog.funcs.values():
+        if fn.module.name != 'xdoctest.checker':
+            continue
+        names = [a.arg for a in fn.node.args.posonlyargs + fn.node.args.args]
+        if 'runstate' in names:
+            takers[fn.qualname] = (fn, names.index('runstate') - (1 if fn.cls is not None else 0))
+    rep.floor(rule, 'checker functions that take the run state', len(takers), 5)
+    n = 0
+    for func in ctx.prog.funcs.values():
+        if not func.module.name.startswith('xdoctest') or func.module.name.startswith('xdoctest._tokenize'):
+            continue
+        pnames = [a.arg for a in func.node.args.posonlyargs + func.node.args.args + func.node.args.kwonlyargs]
+        # does the caller have a run state at hand?
+        has_state = 'runstate' in pnames or any(isinstance(x, ast.Name) and x.id == 'runstate' and isinstance(x.ctx, ast.Store) for x in walk_scope(func.node)) or \
+            any(isinstance(x, ast.Attribute) and x.attr == '_runstate' for x in walk_scope(func.node))
+        for c in walk_scope(func.node):
+            if not isinstance(c, ast.Call):
+                continue
+            r = ctx.res.resolve_call(func, c)
+            if r[0] != 'repo' or len(r[1]) != 1 or r[1][0].qualname not in takers:
+                continue
+            callee, idx = takers[r[1][0].qualname]
+            if any(isinstance(a, ast.Starred) for a in c.args) or any(k.arg is None for k in c.keywords):
+                continue
+            arg = c.args[idx] if idx < len(c.args) else next((k.value for k in c.keywords if k.arg == 'runstate'), None)
+            n += 1
+            if not has_state:
+                rep.ob(rule, ctx.loc(func, c), ctx.src(c, 90), True, 'the caller has no run state of its own', nontrivial=False, anchor=func.qualname)
+                continue
+            fresh = isinstance(arg, ast.Call) and ctx.res.resolve_call(func, arg)[0] == 'class'
+            ok = arg is not None and not (isinstance(arg, ast.Constant) and arg.value is None) and not fresh
+            rep.ob(rule, ctx.loc(func, c), ctx.src(c, 90), ok,
+                   'the current run state is handed on (%s)' % ctx.src(arg, 40) if ok else
+                   '%s is called without the run state the caller holds: the comparison runs under the default flags, so a doctest that switched a flag off '
+                   '(e.g. -ELLIPSIS, -NORMALIZE_WHITESPACE) or on (+IGNORE_WHITESPACE) is judged as if it had not' % callee.name, anchor=func.qualname)
+    rep.floor(rule, 'calls of run-state taking checker functions', n, 10)
+
+
 # ---------------------------------------------------------------------------
 from ..selftest import fire, silent      # noqa: E402
 
 CK = 'xdoctest/checker.py'
 US = 'xdoctest/utils/util_str.py'
 VARIANTS = [
+    fire('repr-fallback-compares-under-default-state', 'C05.R11', (CK, "                flag = check_output(got, want, runstate)\n", "                flag = check_output(got, want)\n")),
+    fire('exception-message-compared-under-default-state', 'C05.R11', (CK, "    flag = check_output(exc_got, exc_want, runstate)\n", "    flag = check_output(exc_got, exc_want)\n")),
     fire('diff-switches-flags-on-shared-state', 'C05.R10', (CK, "        runstate_ = runstate.to_dict()\n\n        # Don't normalize whitespaces in report for better visibility\n", "        runstate_ = runstate\n\n        # Don't normalize whitespaces in report for better visibility\n")),
     fire('mixed-quotes-removed', 'C05.R9', (CK, "                for q in ['\"', \"'\"]:\n                    if a.startswith(q) and a.endswith(q):\n                        if _check_match(a[1:-1], b, runstate):\n                            return a[1:-1]\n", "                quotes = ('\"', \"'\")\n                if a.startswith(quotes) and a.endswith(quotes):\n                    if _check_match(a[1:-1], b, runstate):\n                        return a[1:-1]\n")),
     fire('K2-trailing-ws-spaces-only', 'C05.R4', (CK, 'TRAILING_WS = re.compile(r"[ \\t]*$", re.UNICODE | re.MULTILINE)', 'TRAILING_WS = re.compile(r"[ ]*$", re.UNICODE | re.MULTILINE)')),
